@@ -113,11 +113,30 @@ def run(chk: lib.Check):
             spec = copy_model(spec0, tmp)
             if "resources" in spec:
                 spec = dict(spec)
+            elif hi % 3 == 2:
+                # every third history runs on a fragmented layout: elements that own link elements (components with allocations,
+                # functions, packages) become roots of fragment files of their own
+                import fragmenter
+                from lxml import etree as _ET
+                mdir = pathlib.Path(spec["path"]).parent
+                capella_ = next(p_.name for p_ in mdir.glob("*.capella"))
+                t_ = _ET.parse(str(mdir / capella_))
+                lt_ = graph.link_element_types()
+                cands_ = [e for e in t_.getroot().iter() if isinstance(e.tag, str) and e.get("id") and e.get(graph.XSI_TYPE) and e.getparent() is not None
+                          and e.getparent().getparent() is not None and len(e) >= 2
+                          and e.get(graph.XSI_TYPE) not in lt_ and any(isinstance(c.tag, str) and c.get(graph.XSI_TYPE) in lt_ for c in e)]
+                rng.shuffle(cands_)
+                chosen_ = sorted(cands_[:3], key=lambda e: len(list(e.iterancestors())))
+                picks_ = [(e.get("id"), ("fragments/" if i_ % 2 else "") + f"F{i_} {e.get(graph.XSI_TYPE).split(':')[-1]}.capellafragment") for i_, e in enumerate(chosen_)]
+                made_ = fragmenter.fragment_model(mdir, capella_, pathlib.Path(spec["path"]).name, picks_)
+                wfstats["histories_on_fragmented_layouts"] += 1
+                wfstats["fragment_files"] += len(made_)
             model = corpus.load(spec)
             loader = model._loader
             A = graph.Abstraction()
+            fragmented_layout = "resources" not in spec and hi % 3 == 2
             runner = histories.HistoryRunner(model, rng, savedir=tmp,
-                                             kinds=histories.HistoryRunner.KINDS + ["save", "viewpoint"])
+                                             kinds=histories.HistoryRunner.KINDS + ["save", "viewpoint"] + (["delete_linked"] * 6 if fragmented_layout else []))
             tracked = [p for p in loader.trees if p.suffix not in graph.VISUAL and p.parts[0] == "\0"]
             before = {p: A.nodes(loader.trees[p]) for p in tracked}
             nodes0 = {p: list(before[p]) for p in tracked}
